@@ -1,4 +1,5 @@
 import RedisEmu.Conc
+import RedisEmu.LockFacts
 import Mathlib.Tactic.SplitIfs
 /-
   C16 — data-race freedom (partial). The Lean part is the soundness of the lock discipline the code
@@ -99,5 +100,24 @@ theorem no_foreign_access_inside (m t : Nat) (q : List Ev) (hold : Nat → Optio
   subst he
   rw [wf_append] at hwf
   exact held_until_released m t q1 hold hwf.1 hm (fun e h => hnr e (List.mem_append_left _ h))
+
+/-! ### what the code does: the locking facts extracted from the sources (regenerated on every run)
+
+`RedisEmu.LockFacts` is written by `tools/lockfacts` (go/ast) from /repo's working tree before this file
+is compiled. The theorem below is therefore re-checked against the current sources: it fails to compile
+as soon as some function touches the state a database lock protects (`ds.data`, the object counter, the
+wait table, or any function that needs the lock) before taking the lock, or without holding it until it
+returns, unless every one of its callers holds the lock at the call. -/
+
+/-- every function of the data layer takes the database lock before its first use of the protected
+    state and holds it until it returns, or is only ever called with the lock held -/
+theorem data_layer_lock_discipline :
+    lockFacts.all (fun f => f.2 == LockKind.locksUntilReturn || f.2 == LockKind.needsLock) = true := by
+  decide
+
+/-- non-vacuity: the extractor found the data layer -/
+theorem lock_facts_cover_the_commands :
+    80 ≤ lockFacts.length ∧ lockFacts.any (fun f => f.1 == "(dataStoreCommand).lmove") = true := by
+  decide
 
 end RedisEmu
